@@ -876,16 +876,16 @@ Section Sim2.
       + destruct (tstep eager sync reqs tmo abt t2 (Op Lose)) as [t3 e3] eqn:E3.
         destruct (tstep_sim _ _ _ _ _ R2 E3) as (m3 & A3 & R3).
         intro E; inversion E; subst; clear E. cbn [k_t]. exists m3. split; [|exact R3].
-        rewrite !mon_run_app, A, A2. exact A3.
+        rewrite mon_run_app, A, mon_run_app, A2. exact A3.
       + intro E; inversion E; subst; clear E. cbn [k_t]. exists m2. split; [|exact R2].
-        rewrite !mon_run_app, A, A2. reflexivity.
+        rewrite mon_run_app, A, mon_run_app, A2. reflexivity.
     - destruct (negb (net_paused (k_paused k) evs) && pc && negb (s_lost (t_st t1))).
       + destruct (tstep eager sync reqs tmo abt t1 (Op Lose)) as [t3 e3] eqn:E3.
         destruct (tstep_sim _ _ _ _ _ HR E3) as (m3 & A3 & R3).
         intro E; inversion E; subst; clear E. cbn [k_t]. exists m3. split; [|exact R3].
-        rewrite !mon_run_app, A. exact A3.
+        rewrite mon_run_app, A. exact A3.
       + intro E; inversion E; subst; clear E. cbn [k_t]. exists m1. split; [|exact HR].
-        rewrite !mon_run_app, A. reflexivity.
+        rewrite mon_run_app, A. reflexivity.
   Qed.
 
   Lemma sstep_sim k m o k' evs :
